@@ -96,7 +96,9 @@ def checkSplit (op : SplitOp) (rs : List OutReq) : Option String :=
     (op.fields.find? fun f => f.name == n && f.server == r.server && f.unit.toNat == r.unit).orElse
       fun _ => op.fields.find? (·.name == n)
   -- (1) every field of the kind exactly once, (9) nothing else
-  if !(kind.all fun f => (allKeys.filter (· == (f.name, f.server, f.unit.toNat))).length == 1) then some "(1) a field of the requested kind is missing or duplicated"
+  -- (a definition given twice under one name on one device is listed twice)
+  if !(kind.all fun f => (allKeys.filter (· == (f.name, f.server, f.unit.toNat))).length
+        == (kind.filter fun g => (g.name, g.server, g.unit) == (f.name, f.server, f.unit)).length) then some "(1) a field of the requested kind is missing or duplicated"
   else if !(allKeys.all fun k => (kind.any fun f => (f.name, f.server, f.unit.toNat) == k)) then some "(9) a field of the other kind (or unknown) appears"
   else
   rs.findSome? fun r =>
